@@ -435,6 +435,7 @@ def run(ctx):
         ctx.broken.append("oracle: vlib/mem_sweep.py not importable: %r" % (ex,))
     if mem_sweep is not None:
         sweep_new, sweep_known = mem_sweep.check(ctx, known, widen=bool(corr or not proved or not model))
+        sweep_new += mem_sweep.check_multi(ctx, known)
 
     new = [o for o in orc if not (o["known"] and o["known"] in known)]
     if (corr or not proved or not model) and not new and not sweep_new and not ctx.thorough:
@@ -477,7 +478,7 @@ def replay(ctx, path):
     for l in open(path):
         if not l.strip() or l.startswith("#") or l.startswith("(process)"):
             continue
-        (sweep if l.startswith("sweep ") else cont).append(l)
+        (sweep if l.startswith(("sweep ", "multi ")) else cont).append(l)
     rc = 0
     if cont:
         r, out = core.sh([impl], input="".join(cont))
